@@ -91,7 +91,7 @@ func goFamily() []goCase {
 		{"map[string]*int", []interface{}{map[string]*int{"a": ip(1), "b": ip(2), "n": nil}}, nil},
 		{"struct1", []interface{}{gS1{}, gS1{"Ermintrude", 43}, gS1{"é", -1}}, nil},
 		{"struct2", []interface{}{gS2{}, gS2{Inner: gS1{"x", 1}, Tags: []string{"t"}, Opt: ip(7), M: map[string]uint8{"k": 255}}, gS2{Tags: []string{}, M: map[string]uint8{}}}, nil},
-		{"struct3", []interface{}{gS3{Dyn: cty.StringVal("x"), F: 1.5}, gS3{Dyn: cty.NumberIntVal(12), P: &gS1{"p", 2}}, gS3{Dyn: cty.NullVal(cty.String)}, gS3{Dyn: cty.ListVal([]cty.Value{cty.True})}}, nil},
+		{"struct3", []interface{}{gS3{Dyn: cty.StringVal("x"), F: 1.5}, gS3{Dyn: cty.NumberIntVal(12), P: &gS1{"p", 2}}, gS3{Dyn: cty.NullVal(cty.String)}, gS3{Dyn: cty.ListVal([]cty.Value{cty.True})}, gS3{Dyn: cty.UnknownVal(cty.String), F: 2}, gS3{Dyn: cty.UnknownVal(cty.Map(cty.Number)).RefineNotNull()}}, nil},
 		{"struct4", []interface{}{gS4{}, gS4{A: true, B: sp("v")}}, nil},
 		{"[]struct1", []interface{}{[]gS1{{"a", 1}, {"b", 2}}}, nil},
 		{"map[string]struct{*int}", []interface{}{map[string]struct {
@@ -102,7 +102,12 @@ func goFamily() []goCase {
 		{"**int", []interface{}{ipp(3), ipp(0)}, nil}, // a nil at one of two pointer levels is ambiguous (null is decoded as a nil innermost pointer, by documented design)
 		{"*struct1", []interface{}{(*gS1)(nil), &gS1{"z", 9}}, nil},
 		{"*[]string", []interface{}{&[]string{"a"}, &[]string{}}, nil},
-		{"cty.Value", []interface{}{cty.StringVal("x"), cty.NumberIntVal(1), cty.ObjectVal(map[string]cty.Value{"a": cty.True}), cty.NullVal(cty.Number)}, nil},
+		{"cty.Value", []interface{}{cty.StringVal("x"), cty.NumberIntVal(1), cty.ObjectVal(map[string]cty.Value{"a": cty.True}), cty.NullVal(cty.Number),
+			// embedded dynamic values that are not known: they come back as they went in
+			cty.UnknownVal(cty.String), cty.DynamicVal, cty.UnknownVal(cty.Number).Refine().NotNull().NumberRangeLowerBound(cty.Zero, true).NewValue(),
+			cty.UnknownVal(cty.List(cty.String)).RefineNotNull(), cty.ListVal([]cty.Value{cty.UnknownVal(cty.String), cty.StringVal("k")}), cty.NullVal(cty.DynamicPseudoType)}, nil},
+		{"[]cty.Value", []interface{}{[]cty.Value{cty.UnknownVal(cty.Bool), cty.True, cty.NullVal(cty.Bool)}}, nil},
+		{"map[string]cty.Value", []interface{}{map[string]cty.Value{"u": cty.UnknownVal(cty.String).Refine().StringPrefixFull("p").NewValue(), "k": cty.StringVal("z")}}, nil},
 		{"[2]int", []interface{}{[2]int{1, 2}, [2]int{}}, &listNum},
 		{"[2][]string", []interface{}{[2][]string{{"a"}, {}}}, &listListStr},
 		{"*big.Int", []interface{}{big.NewInt(0), big.NewInt(-5), new(big.Int).Lsh(big.NewInt(1), 100),
